@@ -375,5 +375,12 @@ pub mod verif_hooks {
                 .map(CurveH)
                 .map_err(|e| e.to_string())
         }
+        /// The `#[pymethods]` items themselves: `onto.__setstate__(self.__getstate__())`, as pickle does after `__new__`.
+        pub fn py_state_onto(&self, onto: &mut CurveH) -> Result<(), String> {
+            Python::with_gil(|py| {
+                let st = self.0.__getstate__(py).map_err(|e| e.to_string())?;
+                onto.0.__setstate__(st).map_err(|e| e.to_string())
+            })
+        }
     }
 }
